@@ -51,6 +51,14 @@ pub fn corpus() -> Vec<Named> {
         p("A4 = (2,3,3)", 2, &[&[1, 1], &[2, 2, 2], &[1, 2, 1, 2, 1, 2]], Some(12)),
         p("S4 = (2,3,4)", 2, &[&[1, 1], &[2, 2, 2], &[1, 2, 1, 2, 1, 2, 1, 2]], Some(24)),
         p("A5 = (2,3,5)", 2, &[&[1, 1], &[2, 2, 2], &[1, 2, 1, 2, 1, 2, 1, 2, 1, 2]], Some(60)),
+        // the same polyhedral groups written with mixed-sign relators (a relator crosses a row through two
+        // inverse entries): (a b^-1)^q instead of (ab)^q, inverted powers
+        p("A4 = <a,b|a3,(ab^-1)3,b2>", 2, &[&[1, 1, 1], &[1, -2, 1, -2, 1, -2], &[2, 2]], Some(12)),
+        p("S4 = <a,b|a4,(ab^-1)3,b2>", 2, &[&[1, 1, 1, 1], &[1, -2, 1, -2, 1, -2], &[2, 2]], Some(24)),
+        p("A5 = <a,b|a5,(ab^-1)3,b2>", 2, &[&[1, 1, 1, 1, 1], &[1, -2, 1, -2, 1, -2], &[2, 2]], Some(60)),
+        p("A5 = <a,b|a^-5,(a^-1b)3,b^-2>", 2, &[&[-1, -1, -1, -1, -1], &[-1, 2, -1, 2, -1, 2], &[-2, -2]], Some(60)),
+        p("A5 = <a,b|a2,b^-3,(ab^-1)5>", 2, &[&[1, 1], &[-2, -2, -2], &[1, -2, 1, -2, 1, -2, 1, -2, 1, -2]], Some(60)),
+        p("S4 = <a,b|a2,b^-3,(ab^-1)4>", 2, &[&[1, 1], &[-2, -2, -2], &[1, -2, 1, -2, 1, -2, 1, -2]], Some(24)),
         p("binary tetrahedral <2,3,3>", 2, &[&[1, 1, -2, -2, -2], &[1, 1, -1, -2, -1, -2, -1, -2]], None),
         p("SL(2,3) = <a,b|a3=b3=(ab)2>", 2, &[&[1, 1, 1, -2, -2, -2], &[1, 1, 1, -2, -1, -2, -1]], Some(24)),
         p("trivial: aba^-1=b2, bab^-1=a2", 2, &[&[1, 2, -1, -2, -2], &[2, 1, -2, -1, -1]], Some(1)),
